@@ -123,7 +123,8 @@ static table_t* tbl_generate(vrng_t* r, const tgen_t* gp) {
 }
 
 /* ---- write through the public API ------------------------------------------------------------ */
-typedef struct { int all_ok; int first_bad_status; const char* first_bad_call; int64_t calls; } twrite_result_t;
+typedef struct { int all_ok; int first_bad_status; const char* first_bad_call; int64_t calls; int close_called; int close_status; } twrite_result_t;
+static int TBL_KEEP_GOING = 0;   /* 1: an application that ignores a failed call, writes on and closes normally (the writer must then either refuse at close or leave a readable file) */
 static carquet_schema_t* tbl_make_schema(const table_t* t, carquet_error_t* err) {
     carquet_schema_t* s = carquet_schema_create(err); if (!s) return NULL;
     for (int c = 0; c < t->ncols; c++) { carquet_status_t st = carquet_schema_add_column(s, t->cols[c].name, (carquet_physical_type_t)t->cols[c].type, NULL, (carquet_field_repetition_t)t->cols[c].rep, t->cols[c].type_length);
@@ -165,6 +166,21 @@ static int tbl_write_path(vrng_t* r, const table_t* t, const char* path, twrite_
     carquet_writer_options_t o; tbl_writer_options(t, &o);
     carquet_writer_t* w = carquet_writer_create(path, s, &o, &err);
     if (!w) { carquet_schema_free(s); res->all_ok = 0; res->first_bad_call = "writer_create"; res->first_bad_status = err.code; return 0; }
+    for (int g = 0; g < t->nrg && (res->all_ok || TBL_KEEP_GOING); g++) {
+        if (g > 0) { carquet_status_t st = carquet_writer_new_row_group(w); res->calls++; if (st != CARQUET_OK) { if (res->all_ok) { res->first_bad_status = st; res->first_bad_call = "new_row_group"; } res->all_ok = 0; if (!TBL_KEEP_GOING) break; } }
+        tbl_write_rowgroup(r, w, t, g, res); }
+    if (res->all_ok || TBL_KEEP_GOING) { carquet_status_t st = carquet_writer_close(w); res->calls++; res->close_called = 1; res->close_status = st; if (st != CARQUET_OK) { if (res->all_ok) { res->first_bad_status = st; res->first_bad_call = "close"; } res->all_ok = 0; } }
+    else carquet_writer_abort(w);
+    carquet_schema_free(s); return 1;
+}
+
+/* same as tbl_write_path, but through a stream the caller owns (carquet_writer_create_file); the caller closes the stream */
+static int tbl_write_stream(vrng_t* r, const table_t* t, FILE* f, twrite_result_t* res) {
+    memset(res, 0, sizeof *res); res->all_ok = 1; carquet_error_t err = CARQUET_ERROR_INIT;
+    carquet_schema_t* s = tbl_make_schema(t, &err); if (!s) { res->all_ok = 0; res->first_bad_call = "schema"; return 0; }
+    carquet_writer_options_t o; tbl_writer_options(t, &o);
+    carquet_writer_t* w = carquet_writer_create_file(f, s, &o, &err);
+    if (!w) { carquet_schema_free(s); res->all_ok = 0; res->first_bad_call = "writer_create_file"; res->first_bad_status = err.code; return 0; }
     for (int g = 0; g < t->nrg && res->all_ok; g++) {
         if (g > 0) { carquet_status_t st = carquet_writer_new_row_group(w); res->calls++; if (st != CARQUET_OK) { res->all_ok = 0; res->first_bad_status = st; res->first_bad_call = "new_row_group"; break; } }
         tbl_write_rowgroup(r, w, t, g, res); }
